@@ -185,7 +185,7 @@ theorem get_ok_bound (w : World) (st : St) (iface : ClassId) (r : Ref) (order : 
   | some d =>
     simp only [h0] at h ⊢
     cases h
-    exact h0
+    rfl
   | none =>
     simp only [h0] at h ⊢
     generalize getLoop w iface r st (todoPaths (getBank iface st.banks) r order) = res at h ⊢
@@ -196,7 +196,7 @@ theorem get_ok_bound (w : World) (st : St) (iface : ClassId) (r : Ref) (order : 
       simp only [finish] at h ⊢
       cases h2 : lookupRef r (getBank iface s1.banks).provider with
       | none => simp [h2] at h
-      | some d => simp only [h2] at h ⊢; cases h; exact h2
+      | some d => simp only [h2] at h ⊢; cases h; rfl
 
 /-- a bound reference is answered from the table -/
 theorem get_of_bound (w : World) (st : St) (iface : ClassId) (r : Ref) (order : List Mod) (c : ClassId)
